@@ -949,8 +949,10 @@ pub fn oracle_c06_c07(w: &World, so: &StepObs, out: &mut StepOut, do6: bool, do7
                 } else {
                     0
                 };
+                let spot_pnl = pnl_of(pp, p0.out_spot);
                 let refine = match cls.as_str() {
                     "overflow-sub" if cfg.plr != 0 && r < 0 => "partial-path-negative-ratio",
+                    "overflow-sub" if partial_path && spot_pnl.abs() * cfg.plr as i128 / DI > pp.margin.u128() as i128 => "partial-path-spot-pnl-share-exceeds-margin",
                     "response-parse" if cfg.real_feed => "real-price-feed",
                     "transfer-failure" if partial_path && vault < partial_penalty => "partial-path-vault-below-penalty",
                     "transfer-failure" if !partial_path && vault < rem => "vault-below-remaining-margin",
